@@ -80,7 +80,9 @@ def N_number_values_exact(k: int, d: int, neg: bool, form: int) -> int:
     from crosshair.tracers import NoTracing
     from vf.slices import tokenize_number_branch
 
-    k, d, neg, form = realize(k), realize(d), realize(neg), realize(form)
+    from vf.ob import pick, pickb
+
+    k, d, neg, form = pick(k, 81), pick(d, 5, -2), pickb(neg), pick(form, 3)
     with NoTracing():
         n = (2**k + d) * (-1 if neg else 1)
         text = str(n) if form == 0 else (str(n) + ".0" if form == 1 else str(n) + "e0")
